@@ -19,6 +19,7 @@ def run(prog, tier, extra=None):
     res = Result("C18", "other")
     R1 = res.rule("C18.header", "generate_lite_block copies every identity/header field from the same field of the full block", floor=30)
     R2 = res.rule("C18.retention", "a transaction is replaced by a placeholder only if no input and no output key is listed", floor=2)
+    R5 = res.rule("C18.lite-root", "for a lite client, generate_merkle_root hands back the stored root of every block that carries no transactions", floor=1)
     R4 = res.rule("C18.placeholder-leaf", "the value a receiver recomputes a placeholder's merkle leaf from is, in generate_lite_block, the omitted transaction's leaf hash", floor=1)
     R3 = res.rule("C18.ordinal", "a kept transaction gets the ordinal it has in the full block: the counter advances by a placeholder's txs_replacements", floor=1)
     lb = prog.body(BLK + "generate_lite_block")
@@ -150,6 +151,40 @@ def run(prog, tier, extra=None):
                                 chooser.loc(placeholder[0])))
             else:
                 res.sample({"rule": R2, "side": field, "test": [chooser.loc(x) for x in edges["sites"]], "verdict": "placeholder only when no listed key on this side"})
+    # R5: generate_lite_block fills the lite header with self.generate_merkle_root(true, true). A block that has been pruned / is a header
+    # carries no transactions, so the root cannot be recomputed and must be the stored one - whatever the block's type tag says. The
+    # function must test the emptiness of the transaction list itself, and with (is_spv = true, transactions empty) every return must
+    # pass a definition of the result from self.merkle_root.
+    gmr = prog.body(BLK + "generate_merkle_root")
+    if gmr is None:
+        raise LookupError("Block::generate_merkle_root not found")
+    chr5 = Chaser(gmr)
+    res.instance(R5)
+    empt = gate.bool_switch_edges(gmr, chr5, lambda e: e[0] == "call" and e[1].rsplit("::", 1)[-1] == "is_empty" and e[2] and has_field(e[2][0], "block::Block", "transactions"))
+    lenz = gate.compare_edges(gmr, chr5, lambda a, c: a[0] == "len" and has_field(a, "block::Block", "transactions") and c[0] == "const" and c[1] == 0)
+    empty_false = set(empt["false"]) | set(lenz["ne"])
+    own5 = set()
+    for d in gmr.defs(0):
+        e = chr5.rvalue(d[3], 0) if d[0] == "stmt" else chr5.call(d[2], d[1], 0)
+        if has_field(e, "block::Block", "merkle_root"):
+            own5.add(d[1])
+    spv_param = next((l for l in range(1, gmr.argc + 1) if gmr.name_of(l) == "is_spv"), None)
+    if not (empt["sites"] or lenz["sites"]):
+        res.add(Finding(R5, "C18.lite-root|no-emptiness-test", "Block::generate_merkle_root no longer decides on `self.transactions.is_empty()`: a transaction-less block whose type tag "
+                        "is not one it lists (e.g. a pruned block) gets the root of an empty list, so its lite block carries a header that differs from the full block's", gmr.loc(0)))
+    elif spv_param is None or not own5:
+        res.not_decided.append("C18.lite-root: is_spv parameter / stored-root return not recognised")
+    else:
+        from ..paths import Explorer
+        found5 = Explorer(gmr, fixed_locals={spv_param: True}).explore(0, deleted_edges=empty_false, blocked=own5,
+                                                                       accept=lambda bb, env: "return" if gmr.term(bb)["k"] == "return" else None)
+        if found5:
+            kind, pth = sorted(found5.items())[0]
+            res.add(Finding(R5, "C18.lite-root|recomputed", "Block::generate_merkle_root can recompute the root of a block without transactions for a lite client instead of handing back "
+                            "the stored one", gmr.loc(pth[-1])))
+        else:
+            res.sample({"rule": R5, "verdict": "empty + lite always returns the stored root"})
+
     # R4: a placeholder stands for the omitted transaction's merkle leaf (its hash_for_signature). hash_for_signature is not a wire
     # field; a receiver recomputes it with Transaction::generate_hash_for_signature, whose SPV branch reads some field(s) F of the
     # decoded placeholder. The placeholders are "sufficient to recompute the commitment" only if generate_lite_block stores the omitted
@@ -208,7 +243,7 @@ def run(prog, tier, extra=None):
             res.instance(R3)
 
             def depends_on_replacements(e, seen):
-                if has_field(e, "transaction::Transaction", "txs_replacements"):
+                if has_field(e, "transaction::Transaction", "txs_replacements") or _callee_reads_replacements(prog, e):
                     return True
                 for x in walk(e):
                     if x[0] == "local" and x[1] not in seen:
@@ -237,3 +272,18 @@ def run(prog, tier, extra=None):
         "neither inputs nor outputs touch a listed key. It does not decide placeholder merging nor the recomputed commitment (the exponential pattern space the property names).")
     res.assumptions = ["identity set = reads of serialize_for_signature + fixed header segments of serialize_for_net + {hash, signature}"]
     return res
+
+
+def _callee_reads_replacements(prog, e):
+    """the expression calls a workspace function that reads Transaction.txs_replacements (`tx_index += Self::tx_index_step(tx)`)"""
+    from ..fields import place_has_field
+    for x in walk(e):
+        if x[0] == "call" and x[1] in prog.bodies:
+            cb = prog.bodies[x[1]]
+            if cb.is_promoted or cb.nblocks > 80:
+                continue
+            for blk in cb.blocks:
+                for st in blk["s"]:
+                    if st[0] == "=" and "txs_replacements" in repr(st[2]):
+                        return True
+    return False
